@@ -433,7 +433,12 @@ def main(argv=None):
                     default=int(os.environ.get('BFGSIM_JOBS', 0)) or
                     min(16, os.cpu_count() or 1))
     args = ap.parse_args(argv)
-    seed = int(os.environ.get('VERIF_SEED', '1') or 1)
+    raw = os.environ.get('VERIF_SEED', '1') or '1'
+    try:
+        seed = int(raw)
+    except ValueError:
+        seed = int.from_bytes(hashlib.sha256(raw.encode()).digest()[:6],
+                              'big')
     repo = os.environ.get('BFGSIM_REPO')
     if repo:
         sys.path.insert(0, repo)
